@@ -114,6 +114,25 @@ def group_request_ok(ev, fname, where_key, ctx, where, what):
         if exc_name_of(x) != "ValueError" and ok:
             ok, why = False, "raises %s, not ValueError, without sgname and sgno" % exc_name_of(x)
     ctx.check(ok, where_key, "the group is not sg.sg(sgname=.., cell_choice=..) / sg.sg(sgno=.., cell_choice=..)%s: %s" % (what, why), where)
+    # end to end: what the caller forwards (its own defaults included), read by the real constructor, is the table the user names
+    from props import sgobject
+    init = core.module("xfab/sg.py").method("sg", "__init__")
+    params = [x.arg for x in init.args.args][1:]
+
+    def run_caller(user):
+        e_ = ev()
+        try:
+            e_.call_function(fname, [sym_array("unit_cell", (6,)), Rat.atom("sintlmin"), Rat.atom("sintlmax")], dict(user))
+        except (PyRaise, RaiseReached):
+            pass
+        if not e_.sg_calls:
+            return None
+        a_, k_ = e_.sg_calls[0]
+        bound_ = dict(zip(params, a_))
+        bound_.update(k_)
+        return bound_
+    pid_ = where_key.split(":")[0]
+    sgobject.dispatch_rule(ctx, pid_, "%s.%s" % (getattr(ev(), "mod").rel.split("/")[-1][:-3], fname), run_caller, where)
     return ok
 
 
